@@ -14,7 +14,7 @@
    ([erasable]) are faces whose erased cells look like printed spaces. *)
 From Coq Require Import List NArith Bool Arith.
 From SNT Require Import Render.Cell Render.Screen Render.Frame Render.Domain Render.Spec
-  Render.GridLemmas Render.ExecProofs Render.Den Render.ShowProofs Render.HistoryProofs Render.Loop Render.LoopProofs.
+  Render.GridLemmas Render.ExecProofs Render.Den Render.ShowProofs Render.HistoryProofs Render.Loop Render.LoopProofs Render.IdleProofs.
 Import ListNotations.
 
 (* what [show] means, cell by cell: under an image a blank in the image's face, behind a wide
@@ -79,15 +79,23 @@ Theorem C01_forced : forall o h w s scr,
                    (In (i, r, c) (places scr) \/ In (i, r, c) (places (show o h w s))).
 Proof. exact forced_repaint. Qed.
 
-(* the frame-dropping path of Terminal::run_render: the handler has drawn into the surface, then
-   clear(), then frame() — on a terminal in an arbitrary state (its pending output was dropped) the
-   frame shows what the handler drew *)
-Theorem C01_clear_then_frame : forall o h w st scr,
-  oracle_ok o -> rh st = h -> rw st = w -> good_surface o h w (front st) -> scr_ok scr h w ->
+(* clear() forces a repaint from any terminal state: clear(), the application draws S, frame() on an
+   arbitrary screen gives the grid of show S (clear() also resets the surface: it is called before
+   the frame is drawn, as run_render does right after the poll) *)
+Theorem C01_clear_then_frame : forall o h w st scr s,
+  oracle_ok o -> rh st = h -> rw st = w -> good_surface o h w s -> scr_ok scr h w ->
   let scr1 := exec_list o scr (fst (rclear st)) in
-  let scr' := exec_list o scr1 (fst (frame o (snd (rclear st)))) in
-  sgrid scr' = sgrid (show o h w (front st)) /\ err scr' = false.
+  let scr' := exec_list o scr1 (fst (frame o (rdraw (snd (rclear st)) s))) in
+  sgrid scr' = sgrid (show o h w s) /\ err scr' = false.
 Proof. exact clear_then_frame. Qed.
+
+(* IDLE FRAME: when the drawn surface (glyphs resolved) is what the back buffer holds and no repaint is
+   forced, frame() issues no command at all - for every surface whatsoever (overlapping objects,
+   characters under images included), so an unchanged screen is never touched *)
+Theorem C01_idle_frame : forall o h w old front,
+  gdims front h w -> gdims old h w -> gmap (resolve o) front = old ->
+  fst (frame o (mkrstate h w front old (gmake h w MEmpty))) = [].
+Proof. exact idle_frame. Qed.
 
 (* RENDER LOOP with frame dropping (Terminal::run_render and its output queue, Render/Loop.v): the
    handler draws, then either frame(), or - when frames_pending() exceeds TERMINAL_FRAMES_DROP
@@ -203,7 +211,7 @@ Check C01_forced : forall o h w s scr,
 
 (* non-vacuity: a history with a wide character, a cell behind it, an image, a cell under the
    image, a glyph, a blank run longer than 4 (erased) and one in an underlining face (face 4, printed
-   as spaces), Clear (also between Draw and Frame), Renew, SkipFrame, a Resize to a garbage screen and a wide
+   as spaces), Clear, Renew, SkipFrame, a Resize to a garbage screen and a wide
    character hidden behind another one (then uncovered) is in the domain, and the
    renderer issues commands for it (wide = U+4E16, width 2; image 1 is 2x3 cells) *)
 Definition ex_oracle : oracle :=
@@ -228,7 +236,7 @@ Definition ex_ops : list op :=
 
 Example C01_history_nonvacuous :
   oracle_ok ex_oracle /\ good_ops ex_oracle 2 7 ex_ops
-  /\ length (concat (rrun ex_oracle (rnew 2 7 false) ex_ops)) = 108
+  /\ length (concat (rrun ex_oracle (rnew 2 7 false) ex_ops)) = 101
   /\ existsb (fun c => match c with CEraseChars 5 => true | _ => false end)
              (concat (rrun ex_oracle (rnew 2 7 false) ex_ops)) = true.
 Proof.
